@@ -186,6 +186,35 @@ func blocksDigest(bs []eth.Block) string {
 	return strings.Join(out, "|")
 }
 
+// sortLogs canonicalises a digest for comparisons ACROSS requests: the order in which logs were
+// attached to a transaction is not part of what a request returns (Logs.Add keeps the first-seen
+// order, and items of an earlier, partly processed response stay attached to the cached block)
+func sortLogs(d string) string {
+	if !strings.HasPrefix(d, "ok ") {
+		return d
+	}
+	blocks := strings.Split(d[3:], "|")
+	for i, b := range blocks {
+		parts := strings.Split(b, "/")
+		if len(parts) != 4 {
+			continue
+		}
+		txs := strings.Split(parts[3], ",")
+		for j, t := range txs {
+			f := strings.Split(t, ":")
+			if len(f) == 3 {
+				ls := strings.Split(f[1], ".")
+				sort.Slice(ls, func(a, b int) bool { return len(ls[a]) < len(ls[b]) || (len(ls[a]) == len(ls[b]) && ls[a] < ls[b]) })
+				f[1] = strings.Join(ls, ".")
+				txs[j] = strings.Join(f, ":")
+			}
+		}
+		parts[3] = strings.Join(txs, ",")
+		blocks[i] = strings.Join(parts, "/")
+	}
+	return "ok " + strings.Join(blocks, "|")
+}
+
 type corruption struct {
 	name  string
 	apply func(ex *simnode.Exchange, i int, r *core.Rand) bool // returns false when not applicable
@@ -444,7 +473,7 @@ func runC07(e *core.Env) error {
 							if v == "err" {
 								v = honest
 							}
-							e.Add(core.Case{Impl: v, Spec: honest, Key: fmt.Sprintf("c07-retry%d %s %d %d %d %v %v", i, plan, start, limit, xi, ci, el), Tags: []string{"retry-same-client", "first:" + strings.SplitN(impl, " ", 2)[0]},
+							e.Add(core.Case{Impl: sortLogs(v), Spec: sortLogs(honest), Key: fmt.Sprintf("c07-retry%d %s %d %d %d %v %v", i, plan, start, limit, xi, ci, el), Tags: []string{"retry-same-client", "first:" + strings.SplitN(impl, " ", 2)[0]},
 								Detail: map[string]any{"plan": plan, "start": start, "limit": limit, "exchange": xi, "class": tag, "element": el, "attempt": []string{"first", "again-while-corrupt", "after-source-healed"}[i+1], "first_attempt": strings.SplitN(impl, " ", 2)[0]}})
 						}
 					}
